@@ -6,9 +6,9 @@ EXPLANATION = (
     "C11 (saving is neutral), pretty-printing half: the real container.pretty_indent (with the real TEXT_CONTENT table) and XmlPart.custom_pretty_tree on the lxml model. "
     "A paragraph with one or two children of symbolic kind (text:span, text:a, draw:frame, text:note, office:annotation; optionally with a child) and symbolic text/tail values; "
     "the readable text under ODF white-space collapsing, the attributes and the element skeleton are identical before/after indentation; custom_pretty_tree leaves the "
-    "part's in-memory tree untouched and indenting again gives the same output. "
+    "part's in-memory tree untouched and indenting again gives the same output. Document.save on a real Document over the in-memory container: every XML part written by a pretty save equals the plain one up to ignorable white space, in-memory trees untouched, an edit of the manifest made in memory is written. Flat XML: the real Container._xml_content on an in-memory Container keeps the structure of the four parts and the image of every frame (embedded as base64 of its own part, linked images untouched). "
 )
-OUTSIDE = ("zip vs folder vs flat-XML packaging equivalence and real serialisation (I/O); the generator stamp; more than two children per paragraph, text values longer than 1 character; "
+OUTSIDE = ("folder packaging and the zip writer (file I/O), real lxml serialisation; the generator stamp; more than two children per paragraph, text values longer than 1 character; "
            "office:binary-data wrapping (textwrap); structural children with an empty tail inside a paragraph (known finding C11-pretty-leaks-space)")
 ASSUMPTIONS = ["text/tail values in {None, '', 'a', ' '}"]
 TRUSTED = _T
